@@ -260,6 +260,11 @@ class HistoryRunner:
         # state agreement after the write.  For a CSV database the state is read from the FILE by an independent
         # reader when possible (flush_on_insert=True): a peek through the database's own handle moves its cursor and
         # flushes its buffer, which would hide what a stale cursor / an unflushed buffer does to the next call.
+        if s.path and not s.cfg.get("flush", True) and self.no_handle_peeks:
+            # buffered inserts: the file does not hold the state yet and a peek through the handle would flush the
+            # buffer - leave the state to the reads that follow (the first of them meets the unflushed buffer)
+            self.res.count("state_check_left_to_reads_buffered_handle")
+            return True
         try:
             if s.path and s.cfg.get("flush", True) and not s.cfg.get("encoding") and not s.cfg.get("csv") and self.no_handle_peeks:
                 from . import csvcodec
@@ -291,6 +296,13 @@ class HistoryRunner:
             ops += query_probes(rng, s.model, prof)
         if prof.getter_probes:
             ops += getter_probes(rng, s.model, prof)
+        if self.no_handle_peeks:
+            rng.shuffle(ops)  # any kind of read may be the first one after a write
+            if rng.random() < 0.5:
+                # ... and often it is one that is answered from storage metadata rather than by reading rows
+                first = [i for i, o in enumerate(ops) if o["op"] in ("len", "get_measurements", "get_timestamps", "iter", "all")]
+                if first:
+                    ops.insert(0, ops.pop(rng.choice(first)))
         for op in ops:
             out = s.do(op)
             self.res.evaluations += 1
